@@ -81,7 +81,7 @@ def parse(doc):
 # values: shape x hostile string, plus the twin
 # ---------------------------------------------------------------------------
 SHAPES = ('dict-key', 'dict-leaf', 'list-leaf', 'nested-key', 'obj-field', 'obj-in-list', 'long-leaf', 'key-and-leaf',
-          'dict-int-key', 'class-name')
+          'dict-int-key', 'class-name', 'diff')
 
 _NAMED = {}
 
@@ -119,6 +119,9 @@ def build(shape, h, twin):
   if shape == 'class-name':
     c = named_class(s)
     return pg.Dict(a=c(x=1), b=[c(x=c(x=2))])
+  if shape == 'diff':
+    # the result of pg.diff is a symbolic value too; its keys and both sides are user data
+    return pg.diff(pg.Dict({s: 1, 'z': pg.Dict({s: s, 'k': 1})}), pg.Dict({s: 2, 'z': pg.Dict({s: s + 'x', 'k': 1})}))
   raise ValueError(shape)
 
 
